@@ -110,6 +110,18 @@ REGISTRY = {
         ],
         "require": {"c10:cycles:1": 13, "c10:cycles:2": 13, "c10:cycles:3": 13, "c10:peer:absent": 17, "c10:peer:drop": 11, "c10:peer:flap": 9, "c10:peer:select": 32, "c10:peer:silent": 11, "c10:reopened": 57, "c10:role:active": 19, "c10:role:passive": 20},
     },
+    "C11": {
+        "level": "fault_enumeration",
+        "claim": "Every byte offset in both directions of the connect/select/first-data/linktest exchange is cut, for both roles (enumerated exhaustively), plus generated plans over peer close, T6/T7/T8/write-timeout/linktest stalls, Select.rsp refusals 2..255, 0-8 refused dials or failed listens and drawn backoff configurations; in virtual time every gap between reconnect attempts is compared exactly with the reference backoff sequence (start at initial, never decreasing, <= T5), the link must come back Selected with a working round trip and linktest, the reconnect counter must grow by one per successful re-dial, and nothing may be dialled or listened after Close. The pure backoff step is compared with the reference over (delay, multiplier incl. NaN/Inf, T5) triples.",
+        "trust": "HSMS-SS only (SECS-I recovery is exercised by C18's retry-limit cases). Durations up to 2^53 ns in the pure part (float64-exact range). ref/fsm.Backoff is written from the WithReconnectBackoff documentation.",
+        "technique": "property-based testing (rapid) + exhaustive fault-position enumeration on scripted connections in testing/synctest; model-based backoff oracle",
+        "tests": [
+            {"name": "TestC11Backoff", "shards": 4, "shards_thorough": 16},
+            {"name": "TestC11Recovery", "shards": 8, "shards_thorough": 16},
+            {"name": "TestC11CutEnumeration", "shards": 1},
+        ],
+        "require": {"backoff": 25000, "backoff:flat": 4871, "backoff:nonfinite": 5405, "backoff:reaches-T5": 4570, "c11:cut-beyond-exchange": 126, "c11:enumerated": 50, "c11:fault:cut-in": 275, "c11:fault:cut-out": 191, "c11:fault:linktest": 81, "c11:fault:peer-close": 73, "c11:fault:select-rejected": 45, "c11:fault:t6": 38, "c11:fault:t7": 46, "c11:fault:t8": 84, "c11:fault:write-timeout": 87, "c11:refusals:0": 339, "c11:refusals:1": 137, "c11:refusals:2": 129, "c11:refusals:3": 317, "c11:role:active": 466, "c11:role:passive": 458},
+    },
     "C13": {
         "level": "exploration",
         "claim": 'Generated messages over the stated item grammar x all encoder options round-tripped through the strict encoder and strict parser; parser-accepted texts produced by a grammar-directed text generator re-encoded and re-parsed.',
